@@ -2,7 +2,7 @@
    stub that (a) asserts the region it is asked to fill lies inside the caller's exact-size buffer, (b) returns what the real
    opus_decode_frame may return (its duration rule is asserted on the real body in C01_frame.c), (c) logs every call.
    Decoder state: any value satisfying validate_opus_decoder.  Packet: any PL bytes, frame count <= MAXC; any len in -1..PL,
-   NULL or not; any frame_size 1..120 ms; decode_fec -1..2; framing = -DSD.  Fs = -DFSI case selector (index into the five rates). */
+   NULL or not; any frame_size 1..MAXMS ms (default 120); decode_fec -1..2; framing = -DSD.  Fs = -DFSI case selector (index into the five rates). */
 #include "common.h"
 #define opus_decode_frame opus_decode_frame_REAL
 #include "opus_decoder.c"
@@ -55,7 +55,10 @@ void harness(void){
   unsigned char pkt[PL]; for(int i=0;i<PL;i++) pkt[i]=vt_uchar();
   __CPROVER_assume((pkt[0]&3)!=3 || (pkt[1]&0x3F)<=MAXC);             /* stated bound on the frame count */
   int len=vt_range(-1,PL);
-  int frame_size=vt_range(1,st.Fs/25*3);
+#ifndef MAXMS
+#define MAXMS 120
+#endif
+  int frame_size=vt_range(1,st.Fs/1000*MAXMS);
   int fec=vt_range(-1,2);
   int usenull=vt_range(0,1);
   g_fail_allowed=vt_range(0,1);
